@@ -22,16 +22,16 @@ for d in seeded/${1:-*}/; do
     printf "%s\t%s\tdoes-not-build\t-\t-\n" $name $prop >> $out; continue
   fi
   tier=quick
-  res=$(./check $prop quick 2>&1 | grep -E "violation:|VIOLATION" | head -2)
-  if ! echo "$res" | grep -q VIOLATION; then
-    tier=thorough
-    res=$(./check $prop thorough 2>&1 | grep -E "violation:|VIOLATION" | head -2)
-  fi
+  res=$(timeout 600 ./check $prop quick 2>&1 | grep -E "violation:|VIOLATION" | head -2)
   if ! echo "$res" | grep -q VIOLATION && [ -f $d/also_check ]; then
     for q in $(cat $d/also_check); do
       res=$(./check $q quick 2>&1 | grep -E "violation:|VIOLATION" | head -2)
       if echo "$res" | grep -q VIOLATION; then tier="quick of $q"; break; fi
     done
+  fi
+  if ! echo "$res" | grep -q VIOLATION; then
+    tier=thorough
+    res=$(timeout 900 ./check $prop thorough 2>&1 | grep -E "violation:|VIOLATION" | head -2)
   fi
   git -C /repo checkout -- . ; git -C /repo clean -fdq
   if echo "$res" | grep -q VIOLATION; then st=detected; else st=MISSED; tier=-; fi
